@@ -193,6 +193,7 @@ ALLOWED_GLOBAL_WRITES = {
     "details": {}, "kernel": {}, "kernelpy": {}, "weights": {"DISTRIBUTIONS": "distribution registry filled by load_weights (user plug-in distributions)"},
     "product": {}, "mixture": {}, "resolution": {}, "resolution2d": {}, "sesans": {},
     "core": {"CUSTOM_MODEL_PATH": "configuration"}, "modelinfo": {},
+    "convert": {}, "data": {}, "bumps_model": {},
 }
 
 
